@@ -182,6 +182,9 @@ def _specs(draw, classes=None, pointwise=False):
     if spec["cls"] in gens.TPL and draw(st.sampled_from([True, False, False])):
         # lower truncation: gens draws it rarely; the difference formula deserves more
         spec["opt"]["len_low"] = draw(logfloat(1e-3, 1e2))
+        if draw(st.sampled_from([True, False, False])):
+            # a lower cut-off that is tiny relative to the length scale (but far above the documented 1e-8 zero window)
+            spec["opt"]["len_low"] = float(spec["len_scale"] * 10.0 ** draw(st.sampled_from([-3, -4, -5, -5.5, -6, -6.5])))
     return _sanitize(spec, pointwise=pointwise)
 
 
